@@ -1250,7 +1250,7 @@ impl Prop for C07 {
     }
     fn case_count(&self, tier: Tier) -> u64 {
         match tier {
-            Tier::Quick => 1500,
+            Tier::Quick => 4000,
             Tier::Thorough => 50000,
         }
     }
